@@ -312,9 +312,10 @@ func cachingHandler(router proxy.Router, logger *apexlog.Logger, conf *config.Co
 				if shouldSkip {
 					cr.Writer.SetDiskWritesDisabled()
 				}
-				if rRange != nil {
-					r.Header.Del("range")
-				}
+				// The origin is always asked for the whole resource, also when the Range header is one
+				// getRange does not understand (multiple ranges, malformed): a partial answer must never
+				// be stored as the resource.
+				r.Header.Del("range")
 				clientRevalidateHeader, _, clientRevalidateValue := util.RevalidateHeaders(r.Header)
 				usedRevalidateHeader := ""
 				if cr.Kind == caching.RevalidatingWriter {
